@@ -157,6 +157,17 @@ PROPS["C13"] = {
                     "std::sync::Mutex poisons exactly when a thread panics while holding the guard"],
 }
 
+PROPS["C11"] = {
+    "modules": ["C11"], "required_theorems": ["C11_holds", "step11_A", "step11_B", "Inv11_start", "urun_eq_updateCore", "crun_eq_checkCore"],
+    "monitors": ["C11"],
+    "fields": ["ret", "pj", "pd", "sj", "sje"],
+    "campaign": camp([("conc", 1500)], [("conc", 30000)]),
+    "assumptions": ["interleaving granularity = acquisitions of the state lock (the only shared state is on disk and re-read inside every critical section; what a thread does between two sections depends on its own data only)",
+                    "std::sync::Mutex gives mutual exclusion; the harness's scheduler parks each participating thread in the before_lock hook, so every real schedule at this granularity can be forced and replayed",
+                    "one update at a time (the update lock); the other thread issues launch reports, queries and checks; init/restart during an episode are excluded (a second init is inert by C14, a restart ends the process)",
+                    "the episode starts from a readable state of this release (any content): every call has loaded the state at least once after init"],
+}
+
 # Properties whose theorems are still being written: monitors + correspondence only (not in MANIFEST).
 for _p, _mon, _camp in [
     ("C01", ["C01"], camp(LIFE_Q, LIFE_T)), ("C03", ["C03"], camp(LIFE_Q, LIFE_T)), ("C05", ["C05"], camp(LIFE_Q, LIFE_T)),
